@@ -6,6 +6,10 @@ from diffcheck import Spec, run_spec
 HARNESSES = [("h_transport", "plain", ())]
 
 
+# hand-computed: which send calls carry MSG_MORE (flag lost on the re-queued tail after a would-block before fix of the third round)
+MORE_CASES = {"X L 1m,20 w": "MM-", "X L 5m,20 a1,w": "MMM-", "X L 1m,20 a999999": "M-", "X L 3m,4m,5 w,a2,w": "MMMMM-"}
+
+
 class C06(Spec):
     pid = "C06"
     area = "transport"
@@ -40,7 +44,9 @@ class C06(Spec):
         for busy, sz in ([(300, 6 << 20), (400, 5 << 20)] if tier == "quick" else [(b, m) for b in (200, 300, 500) for m in (5 << 20, 6 << 20, 8 << 20)]):
             cases.append("E %d %d f" % (busy, sz))
         # memory and file buffers (sendfile) mixed, the peer starts reading late so that large buffers really block
-        fcases = ["F L 0 r100,f5000,r100", "F L 300 f8000000", "F L 300 r1000,f6000000,r1000,f300000", "F F 200 f4000000,r4000000,f10",
+        cases += list(MORE_CASES)
+        fcases = ["F L 0 r3,t1048576,r5", "F L 100 t300000", "F L 0 t50,r5", "F F 100 r10,t200000,f3000,r1",
+                  "F L 0 r100,f5000,r100", "F L 300 f8000000", "F L 300 r1000,f6000000,r1000,f300000", "F F 200 f4000000,r4000000,f10",
                   "F L 0 f1", "F L 300 f3000000,f3000000", "F F 0 f70000,f70000,r1"]
         for _ in range(6 if tier == "quick" else 120):
             spec = ",".join("%s%d" % (rng.choice("rf"), rng.choice([1, 100, 4096, 65536, 1000000, 5000000, rng.randint(1, 3000000)])) for _ in range(rng.randint(1, 4)))
@@ -90,18 +96,29 @@ class C06(Spec):
                 return ("a write was pending when its descriptor was reported readable and writable together: the peer received %s of %s bytes, promise %s"
                         % (f["bytes"], t[2], {"P": "never settled", "R": "rejected"}.get(f["p"], "fulfilled with " + f["p"])))
             return None
-        sizes = [int(x[1:]) for x in t[3].split(",")] if t[0] == "F" else [int(x) for x in t[2].split(",")]
-        if int(f["bytes"]) != sum(sizes) or f["content"] != "1":
-            return "peer received %s bytes (content ok=%s) instead of the %d bytes issued, script %s" % (f["bytes"], f["content"], sum(sizes), t[3])
+        specs = t[3].split(",") if t[0] == "F" else t[2].split(",")
+        sizes = [int(x[1:]) for x in specs] if t[0] == "F" else [int(x.rstrip("m")) for x in specs]
+        shrunk = [t[0] == "F" and x[0] == "t" for x in specs]       # a file that shrinks to 100 bytes after it was queued
+        want_bytes = sum(min(s, 100) if sh else s for s, sh in zip(sizes, shrunk))
+        if int(f["bytes"]) != want_bytes or f["content"] != "1":
+            return "peer received %s bytes (content ok=%s) instead of the %d bytes issued, script %s" % (f["bytes"], f["content"], want_bytes, t[3])
         vals = f["p"].split(",")
         for i, (v, s) in enumerate(zip(vals, sizes)):
+            if shrunk[i]:
+                if v != "R" and not (s <= 100 and v == str(s)):
+                    return "write %d: a file that became shorter than queued: promise %s (expected rejected; the worker must not retry for ever)" % (i, v)
+                continue
             if v != str(s):
                 return "write %d of %d bytes: promise %s (expected fulfilled with %d), script %s" % (i, s, {"P": "never settled", "R": "rejected"}.get(v, "fulfilled with " + v), s, t[3])
         if f["twice"] != "0":
             return "a write's promise was settled more than once"
+        if t[0] == "X" and case in MORE_CASES and f.get("more") != MORE_CASES[case]:
+            return ("MSG_MORE per send call: %s, expected %s (every send made for a write issued with MSG_MORE carries the flag, also after a "
+                    "would-block) for %s" % (f.get("more"), MORE_CASES[case], case))
         return None
 
     def same(self, case, impl, model):
+        impl = " ".join(x for x in impl.split() if not x.startswith("more="))
         if case.startswith("F"):   # sendfile calls are not counted by the send hook
             strip = lambda l: " ".join(x for x in l.split() if not x.startswith("calls="))
             return strip(impl) == strip(model)
